@@ -117,6 +117,9 @@ def hash_loop(F, rep, q, rule):
         r = hash_fold(F, rep, q, rule, fn, an, w)
         if r is not None:
             return r
+        r = hash_via_helper(F, rep, q, rule, fn, an, w)
+        if r is not None:
+            return r
     if len(an.loops) != 1:
         rep.bad(rule, q + ":loop", w, "UNRECOGNISED: expected exactly one loop over the name bytes (or one `fold` over them), found %d loops" % len(an.loops))
         return None
@@ -150,6 +153,54 @@ def hash_loop(F, rep, q, rule):
         rep.bad(rule, q + ":accumulator", w, "UNRECOGNISED accumulator update structure")
         return None
     return an, h, entry[0], back[0], byte, rt, w
+
+
+def hash_via_helper(F, rep, q, rule, fn, an, w):
+    """the hash computed by a shared private helper `mix(name, seed, mul, ..)` called with constants, the helper being the fold
+    `name.iter().fold(seed, |h, &b| step(h, b; mul, ..))`: the step is taken with the helper's parameters replaced by the constants"""
+    from .terms import rebuild
+    from .engine import program, State
+    prog = program(F)
+    hcs = [c for c in an.calls() if prog.local_fn(c.callee) is not None and not prog.known_name(prog.local_fn(c.callee))
+           and prog.local_fn(c.callee)["kind"] != "Closure"]
+    if len(hcs) != 1:
+        return None
+    hc = hcs[0]
+    args = hc.arg_values()
+    if not args or args[0] is not T.param(1) or not all(a.op == "const" for a in args[1:]):
+        return None
+    hf = prog.local_fn(hc.callee)
+    han = analyze_fn(F, hf)
+    folds = [c for c in han.calls() if c.declared_norm == "iter::Iterator::fold"]
+    if han.loops or len(folds) != 1 or len(folds[0].args) != 3:
+        return None
+    it, seed, clo = folds[0].arg_values()
+    if not (it.op == "call" and it.args[0] == "[T]::iter" and it.args[2] and it.args[2][0] is T.param(1)):
+        return None
+    if not (clo.op == "agg" and clo.args[0] == "closure" and isinstance(clo.args[1], str)) or han.ret_term() is not folds[0].result:
+        return None
+    cf = F.fn(clo.args[1])
+    step = analyze_fn(F, cf).ret_term() if cf is not None else None
+    if step is None:
+        return None
+    H, B = Term("HASHACC"), Term("HASHBYTE")
+    env_ty = nm(cf["body"]["locals"][1]["ty"]) if len(cf["body"]["locals"]) > 1 else ""
+    bty = nm(cf["body"]["locals"][3]["ty"]) if len(cf["body"]["locals"]) > 3 else ""
+    st0 = State({}, frozenset())
+    sth = State(han.exit_env.get(folds[0].block, {}), folds[0].facts)     # the captures are read where the closure is handed to fold
+    try:
+        s1 = prog.subst(han, sth, step, [T.refval(clo) if env_ty.startswith("&") else clo, H, T.refval(B) if bty.startswith("&") else B])
+        s2 = prog.subst(an, st0, s1, list(args)) if s1 is not None else None
+        seed2 = prog.subst(an, st0, seed, list(args))
+    except KeyError:
+        return None
+    if s2 is None or seed2 is None:
+        return None
+    rep.ok(rule, q + ":bytes", w, "folds over the bytes of the name argument once, in order (in the shared helper %s)" % hf["qual"])
+    byte = T.cast("IntToInt", B, "u8", "u32")
+    rt = an.ret_term()
+    rt2 = rebuild(rt, {hc.result: H}) if rt is not None else None
+    return an, H, seed2, s2, byte, rt2, w
 
 
 def hash_fold(F, rep, q, rule, fn, an, w):
